@@ -582,7 +582,7 @@ package tally
 
 //@ pred specOK(b Buckets) { b == nil || (is(b, ValueBuckets) && (forall k int :: 0 <= k && k < len(vb(b)) ==> !isNaN(vb(b)[k]) && !isInf(vb(b)[k]))) || is(b, DurationBuckets) }
 //@ pred sameSpec(a Buckets, b Buckets) { (is(a, ValueBuckets) && is(b, ValueBuckets) && len(vb(a)) == len(vb(b)) && (forall k int :: 0 <= k && k < len(vb(a)) ==> vb(a)[k] == vb(b)[k])) || (is(a, DurationBuckets) && is(b, DurationBuckets) && len(db(a)) == len(db(b)) && (forall k int :: 0 <= k && k < len(db(a)) ==> db(a)[k] == db(b)[k])) }
-//@ pred storageWF(s bucketStorage) { specOK(s.buckets) && len(s.hbuckets) >= 1 && (is(s.buckets, ValueBuckets) && len(vb(s.buckets)) >= 1 ==> len(s.hbuckets) == len(vb(s.buckets)) + 1 && vup(s.hbuckets, len(s.hbuckets)-1) == math.MaxFloat64 && (forall i, j int :: 0 <= i && i <= j && j < len(s.hbuckets) ==> vup(s.hbuckets, i) <= vup(s.hbuckets, j)) && (forall j int :: 0 <= j && j < len(vb(s.buckets)) ==> (exists k int :: 0 <= k && k < len(vb(s.buckets)) && vup(s.hbuckets, j) == vb(s.buckets)[k])) && (forall k int :: 0 <= k && k < len(vb(s.buckets)) ==> (exists j int :: 0 <= j && j < len(vb(s.buckets)) && vup(s.hbuckets, j) == vb(s.buckets)[k]))) && (is(s.buckets, DurationBuckets) && len(db(s.buckets)) >= 1 ==> len(s.hbuckets) == len(db(s.buckets)) + 1 && dup(s.hbuckets, len(s.hbuckets)-1) == math.MaxInt64 && (forall i, j int :: 0 <= i && i <= j && j < len(s.hbuckets) ==> dup(s.hbuckets, i) <= dup(s.hbuckets, j)) && (forall j int :: 0 <= j && j < len(db(s.buckets)) ==> (exists k int :: 0 <= k && k < len(db(s.buckets)) && dup(s.hbuckets, j) == db(s.buckets)[k])) && (forall k int :: 0 <= k && k < len(db(s.buckets)) ==> (exists j int :: 0 <= j && j < len(db(s.buckets)) && dup(s.hbuckets, j) == db(s.buckets)[k]))) }
+//@ pred storageWF(s bucketStorage) { specOK(s.buckets) && len(s.hbuckets) >= 1 && ((s.buckets == nil || (is(s.buckets, ValueBuckets) && len(vb(s.buckets)) == 0) || (is(s.buckets, DurationBuckets) && len(db(s.buckets)) == 0)) ==> len(s.hbuckets) == 1 && vup(s.hbuckets, 0) == math.MaxFloat64 && dup(s.hbuckets, 0) == math.MaxInt64) && (is(s.buckets, ValueBuckets) && len(vb(s.buckets)) >= 1 ==> len(s.hbuckets) == len(vb(s.buckets)) + 1 && vup(s.hbuckets, len(s.hbuckets)-1) == math.MaxFloat64 && (forall i, j int :: 0 <= i && i <= j && j < len(s.hbuckets) ==> vup(s.hbuckets, i) <= vup(s.hbuckets, j)) && (forall j int :: 0 <= j && j < len(vb(s.buckets)) ==> (exists k int :: 0 <= k && k < len(vb(s.buckets)) && vup(s.hbuckets, j) == vb(s.buckets)[k])) && (forall k int :: 0 <= k && k < len(vb(s.buckets)) ==> (exists j int :: 0 <= j && j < len(vb(s.buckets)) && vup(s.hbuckets, j) == vb(s.buckets)[k]))) && (is(s.buckets, DurationBuckets) && len(db(s.buckets)) >= 1 ==> len(s.hbuckets) == len(db(s.buckets)) + 1 && dup(s.hbuckets, len(s.hbuckets)-1) == math.MaxInt64 && (forall i, j int :: 0 <= i && i <= j && j < len(s.hbuckets) ==> dup(s.hbuckets, i) <= dup(s.hbuckets, j)) && (forall j int :: 0 <= j && j < len(db(s.buckets)) ==> (exists k int :: 0 <= k && k < len(db(s.buckets)) && dup(s.hbuckets, j) == db(s.buckets)[k])) && (forall k int :: 0 <= k && k < len(db(s.buckets)) ==> (exists j int :: 0 <= j && j < len(db(s.buckets)) && dup(s.hbuckets, j) == db(s.buckets)[k]))) }
 
 //@ lock bucketCache.mtx self c protects cache
 //@   property C20, C09
@@ -621,11 +621,14 @@ package tally
 //@ lock scope.tm self s protects timers
 //@   property C09, C05
 //@   inv @entries_non_nil s.timers != nil && (forall k string :: k in s.timers ==> s.timers[k] != nil)
+//@   inv @timers_carry_scope_name_and_tags forall k string :: k in s.timers ==> s.timers[k].name == fqn(s, k) && s.timers[k].tags == s.tags && timerWF(s.timers[k])
 //@   guar @live_entries_never_replaced !s.closed ==> (forall k string :: old(k in s.timers) ==> k in s.timers && s.timers[k] == old(s.timers[k]))
 
 //@ lock scope.hm self s protects histograms, histogramsSlice
 //@   property C09, C05
 //@   inv @entries_non_nil s.histograms != nil && (forall k string :: k in s.histograms ==> s.histograms[k] != nil)
+//@   inv @histograms_carry_scope_name_and_tags forall k string :: k in s.histograms ==> s.histograms[k].name == fqn(s, k) && s.histograms[k].tags == s.tags
+//@   inv @histograms_well_formed forall k string :: k in s.histograms ==> histWF(s.histograms[k]) && (s.histograms[k].htype == valueHistogramType ==> valueWF(s.histograms[k])) && (s.histograms[k].htype == durationHistogramType ==> durationWF(s.histograms[k])) && (s.histograms[k].htype == valueHistogramType || s.histograms[k].htype == durationHistogramType)
 //@   guar @live_entries_never_replaced !s.closed ==> (forall k string :: old(k in s.histograms) ==> k in s.histograms && s.histograms[k] == old(s.histograms[k]))
 
 //@ func (*scope).fullyQualifiedName
@@ -652,3 +655,65 @@ package tally
 //@   ensures @at_most_one_allocation len(calls) <= old(len(calls)) + 1 && (forall j int :: 0 <= j && j < old(len(calls)) ==> calls[j] == old(calls[j]))
 //@   ensures @allocated_under_scope_name_and_tags len(calls) == old(len(calls)) + 1 ==> s.cachedReporter != nil && calls[old(len(calls))] == ev(CachedStatsReporter.AllocateCounter, s.cachedReporter, fqn(s, sanN(s, name)), s.tags) && same(dyn(result, *counter).cachedCount, ires(old(len(calls))))
 //@   ensures @no_cached_reporter_no_calls s.cachedReporter == nil ==> quiet()
+
+//@ func (*scope).gauge
+//@   property C09, C05
+//@   requires scopeWF(s)
+//@   acquires s.gm
+//@   ensures @found result1 ==> is(result0, *gauge) && dyn(result0, *gauge) != nil && name in s.gauges && dyn(result0, *gauge) == s.gauges[name]
+//@   ensures @quiet quiet()
+
+//@ func (*scope).Gauge
+//@   property C09, C05, C04, C06
+//@   emits
+//@   allocs
+//@   requires scopeWF(s)
+//@   acquires s.gm
+//@   modifies s.gauges, s.gaugesSlice
+//@   ensures @registered_object_returned is(result, *gauge) && dyn(result, *gauge) != nil && sanN(s, name) in s.gauges && dyn(result, *gauge) == s.gauges[sanN(s, name)]
+//@   ensures @at_most_one_allocation len(calls) <= old(len(calls)) + 1 && (forall j int :: 0 <= j && j < old(len(calls)) ==> calls[j] == old(calls[j]))
+//@   ensures @allocated_under_scope_name_and_tags len(calls) == old(len(calls)) + 1 ==> s.cachedReporter != nil && calls[old(len(calls))] == ev(CachedStatsReporter.AllocateGauge, s.cachedReporter, fqn(s, sanN(s, name)), s.tags) && same(dyn(result, *gauge).cachedGauge, ires(old(len(calls))))
+//@   ensures @no_cached_reporter_no_calls s.cachedReporter == nil ==> quiet()
+
+//@ func (*scope).timer
+//@   property C09, C05
+//@   requires scopeWF(s)
+//@   acquires s.tm
+//@   ensures @found result1 ==> is(result0, *timer) && dyn(result0, *timer) != nil && sanitizedName in s.timers && dyn(result0, *timer) == s.timers[sanitizedName]
+//@   ensures @quiet quiet()
+
+//@ func (*scope).Timer
+//@   property C09, C05, C04, C06, C10
+//@   emits
+//@   allocs
+//@   requires scopeWF(s)
+//@   acquires s.tm
+//@   modifies s.timers
+//@   ensures @registered_object_returned is(result, *timer) && dyn(result, *timer) != nil && sanN(s, name) in s.timers && dyn(result, *timer) == s.timers[sanN(s, name)]
+//@   ensures @at_most_one_allocation len(calls) <= old(len(calls)) + 1 && (forall j int :: 0 <= j && j < old(len(calls)) ==> calls[j] == old(calls[j]))
+//@   ensures @allocated_under_scope_name_and_tags len(calls) == old(len(calls)) + 1 ==> s.cachedReporter != nil && calls[old(len(calls))] == ev(CachedStatsReporter.AllocateTimer, s.cachedReporter, fqn(s, sanN(s, name)), s.tags) && same(dyn(result, *timer).cachedTimer, ires(old(len(calls))))
+//@   ensures @timer_reports_under_scope_name_and_tags dyn(result, *timer).name == fqn(s, sanN(s, name)) && dyn(result, *timer).tags == s.tags && timerWF(dyn(result, *timer))
+//@   ensures @no_cached_reporter_no_calls s.cachedReporter == nil ==> quiet()
+
+//@ func (*scope).histogram
+//@   property C09, C05
+//@   requires scopeWF(s)
+//@   acquires s.hm
+//@   ensures @found result1 ==> is(result0, *histogram) && dyn(result0, *histogram) != nil && sanitizedName in s.histograms && dyn(result0, *histogram) == s.histograms[sanitizedName]
+//@   ensures @quiet quiet()
+
+//@ func (*scope).Histogram
+//@   property C09, C05, C04, C06, C20, C03
+//@   emits
+//@   allocs
+//@   requires scopeWF(s) && specOK(s.defaultBuckets) && s.defaultBuckets != nil
+//@   requires b == nil || specOK(b)
+//@   acquires s.hm, s.bucketCache.mtx
+//@   modifies s.histograms, s.histogramsSlice, s.bucketCache.cache
+//@   ensures @registered_object_returned is(result, *histogram) && dyn(result, *histogram) != nil && sanN(s, name) in s.histograms && dyn(result, *histogram) == s.histograms[sanN(s, name)]
+//@   ensures @histogram_well_formed histWF(dyn(result, *histogram)) && (dyn(result, *histogram).htype == valueHistogramType ==> valueWF(dyn(result, *histogram))) && (dyn(result, *histogram).htype == durationHistogramType ==> durationWF(dyn(result, *histogram)))
+//@   ensures @reports_under_scope_name_and_tags dyn(result, *histogram).name == fqn(s, sanN(s, name)) && dyn(result, *histogram).tags == s.tags
+//@   ensures @prefix_kept forall j int :: 0 <= j && j < old(len(calls)) ==> calls[j] == old(calls[j])
+//@   ensures @no_cached_reporter_no_calls s.cachedReporter == nil ==> quiet()
+//@   witness created *histogram = h#3
+//@   ensures @new_histogram_uses_requested_bounds created != nil ==> created == dyn(result, *histogram) && sameSpec(created.specification, (b == nil ? s.defaultBuckets : b))
